@@ -18,6 +18,15 @@ CLAIMS = {
                 'specification runs next to the model on every case (a model/spec difference is reported).',
         'note': NOTE_COMMON + EVAL_HYP + ' The specification states the library conventions explicitly (whole-match $ operands, both-absent rule of path == path).',
         'technique': 'Coq refinement proof (implementation model vs specification, mutual induction) + differential correspondence check'},
+    'C07': {
+        'text': 'PARTIAL. In the model an object is an association list in arbitrary order; evaluator and specification reach members only '
+                'through sorted_keys and lookup. Proved: sorted_keys is sorted by the byte-wise order and, like lookup, depends only on '
+                'the set of members (permutation invariance); recursive descent is pre-order with children in index / sorted-key order; '
+                'array, union and multi-name order is the written order by the specification the model refines. Not proved: the congruence '
+                '"documents equal up to permutation give results equal up to permutation" through the whole evaluator. Tie: equal maps built '
+                'in 3 insertion orders, each evaluated repeatedly and interleaved with other maps, must give one sequence, equal to the model.',
+        'note': NOTE_COMMON + ' sort.Strings is assumed to sort byte-wise; Go map iteration order is not modelled.',
+        'technique': 'Coq proofs (insertion sort: sortedness + permutation invariance) + repeated-evaluation oracle + correspondence'},
     'C08': {
         'text': 'C08_compose (coq/Prop_C08.v): on the specification, for a well-formed prefix P and a continuation Q without `$` and '
                 'without aggregates, values(P++Q) = concatenation over values v of P of values($Q on v); C08_compose_same_root for any '
@@ -103,6 +112,44 @@ CLAIMS = {
                 '(exhaustive in the thorough tier) and on the int64 boundary magnitudes, also against Python\'s own slicing.',
         'note': NOTE_COMMON + ' Go int is assumed to be 64 bit; array lengths below 2^62.',
         'technique': 'Coq proof (induction on loop fuel, lia/nia) over a hand model + differential correspondence check'},
+    'C12': {
+        'text': 'C12_parity / C12_same_cursors (coq/Prop_C12.v), on the specification the model refines exactly: erasing every accessor '
+                'flag of a tree whose function parameters and filter operands carry none (acc_clean, evaluated by the driver on every '
+                'parsed tree, together with erase(accessor-mode tree) = plain-mode tree) selects the same cursors in the same order — one '
+                'result per value, each yielding it, same failures; parameters and operands are identical subtrees in both modes. '
+                'Direct oracle: every generated path evaluated in both modes with recording functions (values, order, errors, argument logs).',
+        'note': NOTE_COMMON, 'technique': 'Coq proof on the specification (mutual induction) + paired-mode oracle + correspondence'},
+    'C14': {
+        'text': 'PARTIAL. Proved per function node, with "the values selected before it" given by the specification: a filter function is '
+                'called exactly once with the plain value it is handed and its result replaces it; an aggregate is called exactly once iff '
+                'its parameter path selects something, with ALL selected values (or the elements of the single array of a single-valued '
+                'path), and its result becomes the single value; failure yields ErrorFunctionFailed naming the node. With '
+                'C08_compose_same_root this gives once-per-value in result order. Not proved as one statement: the global call log of a '
+                'retrieval. Tie: recorded argument logs vs the model on every case + direct protocol oracle on the real library.',
+        'note': NOTE_COMMON + EVAL_HYP, 'technique': 'Coq proofs per function node over model + specification; recording-function oracle + correspondence'},
+    'C15': {
+        'text': 'PARTIAL. Proved: the ranking rule of addDeepestError (the selected error is a candidate; deeper replaces; shallower never; at '
+                'equal depth a type mismatch yields, member/function errors are kept) and what single-valued steps report (kind, own text, '
+                'Go type found). Not proved: the reported error = select(failure events of the specification) for multi-branch paths. Tie: '
+                'error type, path text, expected, found compared exactly with the model on every failing generated pair; independent '
+                'first-failing-step oracle for single-valued paths.',
+        'note': NOTE_COMMON, 'technique': 'Coq lemmas on the error-selection model + exact error comparison + first-failing-step oracle'},
+    'C16': {
+        'text': 'PARTIAL. Proved for EVERY key (any byte list): the three unescape routines invert the three escapings '
+                '(C16_double_quoted_roundtrip, C16_single_quoted_roundtrip through the byte state machine, C16_dot_roundtrip) and the '
+                'escapings are injective (distinct keys never confused). Not proved: that the grammar rules consume exactly the escaped '
+                'text. Tie: keys from all Unicode planes, controls, escape-like sequences, near-miss siblings, 3 spellings x 5 path '
+                'positions vs direct map lookup and vs the model.',
+        'note': NOTE_COMMON + ' encoding/json string unquoting is modelled concretely in coq/Text.v.',
+        'technique': 'Coq codec round-trip proofs (induction, explicit fuel) + direct lookup oracle + correspondence'},
+    'C18': {
+        'text': 'PARTIAL. Proved: what a path selects does not depend on the text/connected-text fields of its nodes '
+                '(C18_values_text_independent, on the specification), so spellings parsed to trees equal up to texts select the same '
+                'values; lexical facts: `space` eats exactly the blanks and emits nothing, + sign and leading zeros do not change an '
+                'integer, quote styles name the same key, `.*`/`[*]` run the same action. Not proved: structural round trip for '
+                'arbitrary paths and the same-error-step half. Tie: every generated AST in 2..6 spellings must agree on the real '
+                'library and with the model.',
+        'note': NOTE_COMMON, 'technique': 'Coq proof on the specification + lexical lemmas on the regenerated grammar + spelling-group oracle'},
     'C13': {
         'text': 'C13_locations (every accessor with a location carries a location of the document holding exactly the returned value, for '
                 'all paths and documents), C13_get_after_set and C13_set_frame (lens laws: Set writes that location and nothing '
